@@ -23,6 +23,7 @@
 #include "utap/prettyprinter.h"
 #include "utap/builder.h"
 #include "kinds_gen.h"
+#include "libparser.h"   // UTAP::tracker (the process-global position counter)
 
 #include <cstdio>
 #include <cstring>
@@ -520,6 +521,12 @@ static void run_case(const std::string& id, bool newxta, std::vector<Cmd>& cmds)
                 DocumentBuilder b(*doc);
                 int r = parse_XTA(c.data.c_str(), &b, newxta, (xta_part_t)atoi(c.arg.c_str()), "");
                 printf("ret %d\n", r);
+            } else if (c.op == "SEEDPOS") {
+                // C15: carry the global position counter to a chosen value (as if that much input had been parsed before)
+                UTAP::tracker.position = (uint32_t)strtoul(c.arg.c_str(), nullptr, 10);
+                printf("seeded\n");
+            } else if (c.op == "POS") {
+                printf("pos %u\n", UTAP::tracker.position);
             } else if (c.op == "BIND") {
                 opt_bind = c.arg == "1";
             } else if (c.op == "DUMP") {
